@@ -10,7 +10,11 @@ the *collection* of headers, written without any notion of an incrementally upda
 * `name@date` denotes the loaded header with that name and date;
 * the bare `name` denotes, among the loaded headers with that name, the one with the latest
   date, a header without revision ranking below every date.
-Dates are compared as dates (year, month, day as numbers), not as strings.  Core Lean only.
+Dates are compared as dates (year, month, day as numbers), not as strings.
+A header whose name contains `@` — the character that separates name and revision-date in
+`name@date`, never part of a YANG identifier — is never loaded: it is rejected wherever it
+stands, and names are looked up among the remaining (`loadable`) headers (`outcomesG`).
+Core Lean only.
 -/
 namespace Goyang.Spec.Registry
 
@@ -63,6 +67,30 @@ def outcomesAfter (before : List Header) : List Header → List Bool
   | h :: rest => before.contains h :: outcomesAfter (before ++ [h]) rest
 
 def outcomes (hs : List Header) : List Bool := outcomesAfter [] hs
+
+/-- The name can be a module name: no `@`. -/
+def nameOk (h : Header) : Bool := !h.name.toList.contains '@'
+
+/-- The headers that can be loaded at all. -/
+def loadable (hs : List Header) : List Header := hs.filter nameOk
+
+inductive Outcome where
+  | ok
+  /-- the same kind, name and latest revision was loaded before -/
+  | dup
+  /-- the name contains `@` -/
+  | badName
+  deriving DecidableEq, Repr
+
+/-- Per load, in load order, for arbitrary names: a name with `@` is rejected and leaves no trace;
+otherwise the load is rejected exactly when an equal header is among those loaded before. -/
+def outcomesAfterG (before : List Header) : List Header → List Outcome
+  | [] => []
+  | h :: rest =>
+    if nameOk h then (if before.contains h then .dup else .ok) :: outcomesAfterG (before ++ [h]) rest
+    else .badName :: outcomesAfterG before rest
+
+def outcomesG (hs : List Header) : List Outcome := outcomesAfterG [] hs
 
 /-- How many loads of header `h` are rejected: all but one. -/
 def rejectedCount (hs : List Header) (h : Header) : Nat := hs.count h - 1
